@@ -33,6 +33,37 @@ func genC03(kind string) func(r *core.Rng) any {
 			p = genPath(r, pathOpts{Kinds: kCube, MaxSegs: 3, MaxSubs: 2, Closed: 2, MildCurve: true, NearChord: true, Scale: scale})
 		case "end-inflection-cubics":
 			p = genPath(r, pathOpts{Kinds: kCube, MaxSegs: 2, MaxSubs: 1, Closed: 2, MildCurve: true, EndInflect: true, Scale: scale})
+		case "gentle-cubics":
+			// convex cubics whose first (or last) three control points are collinear up to a relative
+			// offset between 1e-9 and 1e-1, the fourth well off that line: the quadratic term of the
+			// error estimate nearly vanishes at the start and the cubic term must bound the step
+			p = &canvas.Path{}
+			for n := r.IntRange(1, 2); n > 0; n-- {
+				L := r.Range(5, 60) * scale
+				th := r.Range(0, 2*math.Pi)
+				d := canvas.Point{X: math.Cos(th), Y: math.Sin(th)}
+				nn := canvas.Point{X: -d.Y, Y: d.X}
+				if r.Chance(0.5) {
+					nn = canvas.Point{X: d.Y, Y: -d.X}
+				}
+				p0 := canvas.Point{X: r.Range(-50, 50) * scale, Y: r.Range(-50, 50) * scale}
+				a := r.Range(0.2, 1.5)
+				b := a + r.Range(0.2, 1.5)
+				cc := b + r.Range(0.0, 1.5)
+				eps := r.LogRange(1e-9, 1e-1)
+				if r.Chance(0.1) {
+					eps = 0
+				}
+				h := r.Range(0.3, 3)
+				p1 := p0.Add(d.Mul(a * L))
+				p2 := p0.Add(d.Mul(b * L)).Add(nn.Mul(eps * L))
+				p3 := p0.Add(d.Mul(cc * L)).Add(nn.Mul(h * L))
+				if r.Chance(0.5) {
+					p0, p1, p2, p3 = p3, p2, p1, p0
+				}
+				p.MoveTo(p0.X, p0.Y)
+				p.CubeTo(p1.X, p1.Y, p2.X, p2.Y, p3.X, p3.Y)
+			}
 		case "s-cubics":
 			p = genPath(r, pathOpts{Kinds: kCube, MaxSegs: 3, MaxSubs: 2, Closed: 2, MildCurve: true, Inflect: 1, Scale: scale})
 		case "wild-beziers": // hairpins, cusps, loops, control points on end points
@@ -309,6 +340,7 @@ func init() {
 		Strata: []core.Stratum{
 			{Name: "mild-quads", Quick: 1500, Thorough: 30000, Gen: genC03("mild-quads")},
 			{Name: "convex-cubics", Quick: 1500, Thorough: 30000, Gen: genC03("convex-cubics")},
+			{Name: "gentle-cubics", Quick: 1500, Thorough: 30000, Gen: genC03("gentle-cubics"), Note: "convex cubics with three nearly collinear control points at one end"},
 			{Name: "s-cubics", Quick: 1500, Thorough: 30000, Gen: genC03("s-cubics")},
 			{Name: "chord-cubics", Quick: 1000, Thorough: 20000, Gen: genC03("chord-cubics")},
 			{Name: "circular-arcs", Quick: 1500, Thorough: 30000, Gen: genC03("circular-arcs")},
